@@ -158,6 +158,7 @@ func c18(repo string, out *fg.Out) error {
 		return fmt.Errorf("(*PartitionPruner).ExtractTimeRange not found")
 	}
 	var defaultStart int64 = -1
+	defaultIsFloor := false
 	var startOnlyAdd int64 = -1
 	ast.Inspect(ex.Body, func(n ast.Node) bool {
 		as, ok := n.(*ast.AssignStmt)
@@ -172,6 +173,9 @@ func c18(repo string, out *fg.Out) error {
 		case "start":
 			if v, err := timeDateUnix(env, as.Rhs[0]); err == nil {
 				defaultStart = v
+			} else if rid, ok := as.Rhs[0].(*ast.Ident); ok && rid.Name == "minPartitionDate" {
+				defaultStart = minDate
+				defaultIsFloor = true
 			}
 		case "end":
 			// time.Now().UTC().Add(<dur>)
@@ -185,7 +189,7 @@ func c18(repo string, out *fg.Out) error {
 		return true
 	})
 	if defaultStart < 0 {
-		return fmt.Errorf("ExtractTimeRange: `start := time.Date(<const>…, time.UTC)` (end-only default) not found")
+		return fmt.Errorf("ExtractTimeRange: `start := time.Date(<const>…, time.UTC)` / `start := minPartitionDate` (end-only default) not found")
 	}
 	if startOnlyAdd < 0 {
 		return fmt.Errorf("ExtractTimeRange: `end := time.Now().UTC().Add(<const>)` (start-only default) not found")
@@ -215,6 +219,20 @@ func c18(repo string, out *fg.Out) error {
 		return true
 	})
 	nilGuards := strings.Count(f.Text(ex.Body), "startTime == nil") + strings.Count(f.Text(ex.Body), "endTime == nil")
+
+	exText := f.Text(ex.Body)
+	bailMulti := strings.Contains(exText, "multiTablePattern.MatchString(maskedSQL)") && strings.Contains(exText, "selectPattern.FindAllStringIndex(maskedSQL, 2)) > 1")
+	bailOrNot := strings.Contains(exText, "disjunctionPattern.MatchString(maskedWhereClause)")
+	inclRules := []string{}
+	for _, l := range strings.Split(exText, "\n") {
+		if strings.Contains(l, "endInclusive =") || strings.Contains(l, "endInclusive :=") {
+			t := strings.TrimSpace(l)
+			if i := strings.Index(t, "//"); i >= 0 {
+				t = strings.TrimSpace(t[:i])
+			}
+			inclRules = append(inclRules, t)
+		}
+	}
 
 	// ---- parseDateTime layouts
 	pd := f.FuncDecl("", "parseDateTime")
@@ -256,18 +274,22 @@ func c18(repo string, out *fg.Out) error {
 	var units []string
 	ast.Inspect(er.Body, func(n ast.Node) bool {
 		cc, ok := n.(*ast.CaseClause)
-		if !ok || len(cc.List) != 1 || len(cc.Body) != 1 {
+		if !ok || len(cc.List) != 1 || len(cc.Body) == 0 {
 			return true
 		}
 		u, ok := unq(cc.List[0])
 		if !ok {
 			return true
 		}
-		ret, ok := cc.Body[0].(*ast.ReturnStmt)
-		if !ok || len(ret.Results) == 0 {
+		if ret, ok := cc.Body[0].(*ast.ReturnStmt); ok && len(cc.Body) == 1 && len(ret.Results) > 0 {
+			units = append(units, u+" => "+f.Text(ret.Results[0]))
 			return true
 		}
-		units = append(units, u+" => "+f.Text(ret.Results[0]))
+		var parts []string
+		for _, st := range cc.Body {
+			parts = append(parts, strings.Join(strings.Fields(f.Text(st)), " "))
+		}
+		units = append(units, u+" => "+strings.Join(parts, "; "))
 		return true
 	})
 	if len(units) == 0 {
@@ -453,6 +475,13 @@ func c18(repo string, out *fg.Out) error {
 		single["relativeEndSubtractPattern"], single["relativeEndAddPattern"]})
 	fmt.Fprintf(w, "def storagePathPattern : String := %s\n", fg.LeanStr(single["storagePathPattern"]))
 	strList("extractOrder", order)
+	for _, n := range []string{"multiTablePattern", "selectPattern", "disjunctionPattern"} {
+		fmt.Fprintf(w, "def %s : String := %s\n", n, fg.LeanStr(single[n]))
+	}
+	fmt.Fprintf(w, "/-- ExtractTimeRange returns nil for statements with JOIN / set operations / more than one SELECT -/\ndef bailsOnMultiTable : Bool := %v\n", bailMulti)
+	fmt.Fprintf(w, "/-- ExtractTimeRange returns nil when the WHERE text contains OR / NOT -/\ndef bailsOnOrNot : Bool := %v\n", bailOrNot)
+	fmt.Fprintf(w, "def defaultStartIsFloor : Bool := %v\n", defaultIsFloor)
+	strList("endInclusiveRules", inclRules)
 	fmt.Fprintf(w, "def extractBreaks : Nat := %d\ndef extractNilGuards : Nat := %d\n", breaks, nilGuards)
 	strList("parseLayouts", layouts)
 	fmt.Fprintf(w, "def parseConvertsToUTC : Bool := %v\n", utcConv)
